@@ -1029,8 +1029,17 @@ func c08MergeSets(ctx *core.Ctx) {
 			ctx.Cap("wall-clock cap in module file sets")
 			return
 		}
-		for _, st := range []map[string]int{nil, styles[1+i%(len(styles)-1)]} {
+		for si, st := range []map[string]int{nil, styles[1+i%(len(styles)-1)], nil} {
 			files := renderFiles(fs.Files, st, nil)
+			if si == 2 {
+				// the same files in reverse order (a malformed member first, an extension before its type)
+				if len(files) < 2 {
+					continue
+				}
+				for a, b := 0, len(files)-1; a < b; a, b = a+1, b-1 {
+					files[a], files[b] = files[b], files[a]
+				}
+			}
 			mods := make([]transformer.ModuleFile, len(files))
 			for k, f := range files {
 				mods[k] = transformer.ModuleFile{Name: f.spec.Name, Contents: f.text}
